@@ -39,8 +39,8 @@ def l2Unary (st : St) (z x : String) (sx expSet : BSet) (got : String) (what : S
       let exact : Verdict :=
         if rx.wf then
           let r := renderRep (model rx)
-          if r != rzS then some ("L2 " ++ what ++ " model = Go representation; model: " ++ (r.take 400).toString)
-          else if !rz.wf then some ("well-formed result of " ++ what ++ " on a well-formed operand")
+          if !rz.wf then some ("well-formed result of " ++ what ++ " on a well-formed operand")
+          else if r != rzS then some ("L2 " ++ what ++ " model = Go representation; model: " ++ (r.take 400).toString)
           else none
         else none
       let expUnch := if renderRep (src rx) == rxS then "ok" else "xchg"
@@ -97,8 +97,8 @@ def stepL2Xform (st : St) (cmd : List String) (got : String) : Option (St × Ver
         let r := renderRep (Rep.fromDense ws (cp == "1"))
         some (st', firstFail [
           failIf (ry.toBSetFast != s) ("abs(repr " ++ y ++ ")=" ++ digest s),
-          failIf (r != got) ("L2 FromDense model = Go representation; model: " ++ (r.take 400).toString),
-          failIf (!ry.wf) "well-formed result of FromDense"])
+          failIf (!ry.wf) "well-formed result of FromDense",
+          failIf (r != got) ("L2 FromDense model = Go representation; model: " ++ (r.take 400).toString)])
       | none => some (st', some "a parsable representation")
     | none => some (skipV st got)
   | _ => none
